@@ -1,7 +1,7 @@
 """C13  Package relationship fields: format and parse are inverse.
 
-B-13 bounded stand-in (the determinism analysis of __dep_RE and the printer contracts of DESIGN §5 C13
-are not generated yet): generated relation structures (1-3 conjuncts x 1-3 alternatives; valid names;
+R-13 (proved, all formatted atoms): match and per-group capture lemmas on the real __dep_RE.
+B-13 bounded stand-in (the printer contracts of DESIGN §5 C13 are not generated): generated relation structures (1-3 conjuncts x 1-3 alternatives; valid names;
 optional architecture qualifier; optional version constraint with the five operators; optional
 architecture list of 1-3 plain or negated names; optional restriction formula of 1-4 groups of 1-3
 plain or negated lower-case profiles; all combinations of the optional parts) are formatted with
@@ -164,7 +164,10 @@ def run(ctx):
                 break
     t.done()
     ctx.level = "other"
-    ctx.explanation = "BOUNDED ONLY in this revision (see module docstring)."
+    ctx.explanation = ("PROVED for all formatted atoms (SMT on the real __dep_RE): the atom matches, and each named group captures exactly "
+                       "the written part (one capture lemma per group, over every way the pattern can match). NOT proved: splitting at "
+                       "',' / '|', parse_archs, parse_restrictions (__restriction_RE relies on the priority of the optional '!' group, "
+                       "which the all-paths translation does not model), PkgRelation.str - BOUNDED part (see module docstring).")
     ctx.assumptions += ["build profiles are lower-case (parse_restrictions lower-cases the formula)"]
 
 
